@@ -14,8 +14,11 @@
 (*     run, and exact agreement of every observation with the helper's      *)
 (*     machine (C47 is stated as exactness of forwarded bytes, counts,      *)
 (*     digests and error reporting).                                        *)
-(*  ev = "Race": the event order observed while a write was held inside     *)
-(*     the downstream writer and another goroutine called Shut / Write.     *)
+(*  ev = "Race": the ticketed event order (call starts and returns, entries  *)
+(*     to and exits from the underlying writer; events[k].t = k) recorded   *)
+(*     while one Write was held inside a gated underlying writer and the    *)
+(*     calls of in.order (Write / Shut) or a Cancel were started behind it. *)
+(*     Judged by the schedule contracts of StreamOps, from tickets only.    *)
 (***************************************************************************)
 EXTENDS StreamOps, TraceKit
 
@@ -33,7 +36,9 @@ WellFormed(r) ==
         /\ {"kind", "n", "cl"} \subseteq DOMAIN r.in.cfg /\ r.in.cfg.kind \in Kinds
         /\ Len(r.res) = Len(r.in.ops)
         /\ \A j \in 1..Len(r.res) : Len(r.res[j]) = 4 /\ Len(r.in.ops[j]) = 3
-     \/ /\ r.ev = "Race" /\ Has(r, "events") /\ Has(r, "complete") /\ Has(r.in, "kind")
+     \/ /\ r.ev = "Race" /\ Has(r, "events") /\ Has(r, "complete")
+        /\ {"kind", "order", "interval"} \subseteq DOMAIN r.in /\ r.in.kind \in {"valve", "concurrent", "preempt"}
+        /\ \A k \in 1..Len(r.events) : {"t", "e", "who", "d", "n", "err"} \subseteq DOMAIN r.events[k] /\ r.events[k].t = k
 
 \* is o an operation the helper of cfg understands (exported behaviours only)
 InSpace(cfg, o) ==
@@ -67,7 +72,8 @@ StreamFails(i, r) ==
      \o Chk(Want, i, "C47_DriverInSpace", r.in.src = "seq" => \A j \in 1..Len(ops) : InSpace(cfg, ops[j]))
 
 RaceFails(i, r) ==
-     Chk(Want, i, "C47_Schedule", C47_Schedule(r.in.kind, r.events))
+     Chk(Want, i, "C47_Schedule", C47_Schedule(r.in.kind, r.in.interval, r.events) /\ IntactBytes(r.events))
+  \o Chk(Want, i, "C47_ShutDiscards", r.in.kind = "valve" => C47_ShutDiscards(r.events))
   \o Chk(Want, i, "C47_ScheduleCompleted", r.complete)
 
 CaseFails(i, r) ==
